@@ -4,6 +4,7 @@ import (
 	"fmt"
 	"go/token"
 	"go/types"
+	"os"
 	"sort"
 	"strings"
 
@@ -174,6 +175,21 @@ func c38Sig(v ssa.Value, depth int) string {
 	}
 	switch x := v.(type) {
 	case *ssa.Parameter:
+		// a parameter of an in-package helper of the entry point: described by
+		// what the entry point passes for it (parameter mapping)
+		if as := c38Bind[x]; len(as) > 0 && !c38SigBusy[x] {
+			c38SigBusy[x] = true
+			defer delete(c38SigBusy, x)
+			if len(as) == 1 {
+				return c38Sig(as[0], depth)
+			}
+			var vals []string
+			for _, a := range as {
+				vals = append(vals, c38Sig(a, depth-1))
+			}
+			sort.Strings(vals)
+			return strings.Join(vals, "|")
+		}
 		for i, p := range x.Parent().Params {
 			if p == x {
 				return fmt.Sprintf("param%d", i)
@@ -348,9 +364,6 @@ func runC38(c *Ctx) {
 	p := c.Load(c38Pkg)
 	add := p.Func(c38Pkg, "cmdAdd")
 	del := p.Func(c38Pkg, "cmdDel")
-	if add == nil || del == nil {
-		c.Lost("cmdAdd / cmdDel")
-	}
 	c.Rule("C38.idem", "E-ERR", "cmdDel: the error of every handle-keyed IPAM call (ReleaseByHandle, IPsByHandle) is returned only after the ErrorResourceDoesNotExist tolerance", 4)
 	c.Rule("C38.both", "E-ORDER", "cmdDel: every success exit outside the KubeVirt-persistence branch is dominated by ReleaseByHandle(primary handle) and ReleaseByHandle(workload ID)", 2)
 	c.Rule("C38.handle", "E-CONST/E-FLOW", "cmdAdd and cmdDel derive GetHandleID / CreateVMHandleID arguments identically; AutoAssign/AssignIP receive that handle", 4)
@@ -361,13 +374,157 @@ func runC38(c *Ctx) {
 
 	c.Rule("C38.notfound", "E-ERR (interprocedural)", "libcalico-go/lib/ipam: the only ErrorResourceDoesNotExist that can be returned by ipamClient.ReleaseByHandle / IPsByHandle — the calls whose not-found cmdDel treats as success — is the one of the read of the handle object (Get of an IPAMHandleKey); the not-found of every other keyed read whose error is passed up (a block the handle points at, the IPAM config) is tested and absorbed before it can reach a return", 5)
 
-	c38Idem(c, p, del)
-	c38Both(c, p, del)
-	c38Handle(c, p, add, del)
-	c38Add(c, p, add)
-	c38Whole(c)
+	// Families are independent: one lost anchor must not zero the others.
+	if add != nil && del != nil {
+		c38Isolated(c, func() { c38Idem(c, p, del) })
+		c38Isolated(c, func() { c38Both(c, p, del) })
+		c38Isolated(c, func() { c38Handle(c, p, add, del) })
+		c38Isolated(c, func() { c38Add(c, p, add) })
+	}
+	c38Isolated(c, func() { c38Whole(c) })
 	// the handle-keyed calls whose not-found cmdDel tolerates (C38.idem) must only report the handle's own absence
-	c38NotFound(c, c.Load(c21IpamPkg), []string{"ReleaseByHandle", "IPsByHandle"})
+	c38Isolated(c, func() { c38NotFound(c, c.Load(c21IpamPkg), []string{"ReleaseByHandle", "IPsByHandle"}) })
+	c38UseScope(nil)
+	if add == nil || del == nil {
+		c.Lost("cmdAdd / cmdDel")
+	}
+}
+
+// c38Isolated runs one rule family; an anchor it loses is recorded (the run
+// still ends BROKEN-CHECK / exit 2) but the other families are still decided.
+func c38Isolated(c *Ctx, f func()) {
+	defer func() {
+		if r := recover(); r != nil {
+			if al, ok := r.(anchorLost); ok {
+				c.broken = append(c.broken, al.msg)
+				return
+			}
+			if os.Getenv("CALINT_DEBUG") != "" {
+				panic(r)
+			}
+			c.broken = append(c.broken, fmt.Sprintf("ENGINE-PANIC: %v", r))
+		}
+	}()
+	f()
+}
+
+// ---------------------------------------------------------------------- scope --
+
+// c38Scope is an entry point (cmdAdd / cmdDel) together with the functions of
+// its own package it reaches through static calls (closures included), and the
+// parameter mapping of those helpers: helper parameter -> the values passed
+// for it at the call sites inside the scope.  Computed from the SSA call
+// graph; no function is identified by name.
+type c38Scope struct {
+	root  *ssa.Function
+	funcs []*ssa.Function // root first; top-level functions and their closures
+	in    map[*ssa.Function]bool
+	bind  map[*ssa.Parameter][]ssa.Value
+	sites map[*ssa.Function][]*ssa.Call // top-level helper -> its call sites in scope
+}
+
+func c38ScopeOf(root *ssa.Function) *c38Scope {
+	sc := &c38Scope{root: root, in: map[*ssa.Function]bool{}, bind: map[*ssa.Parameter][]ssa.Value{}, sites: map[*ssa.Function][]*ssa.Call{}}
+	queue := []*ssa.Function{root}
+	var addFn func(f *ssa.Function)
+	addFn = func(f *ssa.Function) {
+		if sc.in[f] {
+			return
+		}
+		sc.in[f] = true
+		sc.funcs = append(sc.funcs, f)
+		for _, af := range f.AnonFuncs {
+			addFn(af)
+		}
+	}
+	for len(queue) > 0 {
+		f := queue[0]
+		queue = queue[1:]
+		if sc.in[f] {
+			continue
+		}
+		addFn(f)
+		allInstrs(f, true, func(_ *ssa.Function, in ssa.Instruction) {
+			call, ok := in.(*ssa.Call)
+			if !ok {
+				return
+			}
+			sf := calleeFn(call.Common())
+			if sf == nil || sf.Blocks == nil || sf.Parent() != nil || sf.Pkg == nil || sf.Pkg != root.Pkg || sf == root {
+				return
+			}
+			if len(sf.Params) != len(call.Call.Args) {
+				return
+			}
+			sc.sites[sf] = append(sc.sites[sf], call)
+			for i, prm := range sf.Params {
+				sc.bind[prm] = append(sc.bind[prm], call.Call.Args[i])
+			}
+			if !sc.in[sf] {
+				queue = append(queue, sf)
+			}
+		})
+	}
+	return sc
+}
+
+// the scope the value walkers (c38Sig, c38HandleClass) currently resolve helper
+// parameters and helper results in
+var (
+	c38Bind    map[*ssa.Parameter][]ssa.Value
+	c38InScope map[*ssa.Function]bool
+	c38SigBusy = map[*ssa.Parameter]bool{}
+)
+
+func c38UseScope(sc *c38Scope) {
+	if sc == nil {
+		c38Bind, c38InScope = nil, nil
+		return
+	}
+	c38Bind, c38InScope = sc.bind, sc.in
+}
+
+// c38Through lets origins() cross the boundary of in-scope helpers: a helper
+// parameter stands for what is passed for it, the result of a helper call for
+// what the helper returns.
+func c38Through(x ssa.Value) []ssa.Value {
+	resultsOf := func(call *ssa.Call, idx int) []ssa.Value {
+		sf := calleeFn(call.Common())
+		if sf == nil || !c38InScope[sf] || sf.Parent() != nil {
+			return nil
+		}
+		var out []ssa.Value
+		for _, r := range returnsOf(sf) {
+			if r.Block() == sf.Recover || idx >= len(r.Results) {
+				continue
+			}
+			v := c38Unspill(r, r.Results[idx])
+			if v == nil {
+				return nil
+			}
+			out = append(out, v)
+		}
+		return out
+	}
+	switch y := x.(type) {
+	case *ssa.Parameter:
+		if as := c38Bind[y]; len(as) > 0 {
+			return as
+		}
+	case *ssa.Call:
+		if _, isTuple := y.Type().(*types.Tuple); !isTuple {
+			if rs := resultsOf(y, 0); len(rs) > 0 {
+				return rs
+			}
+		}
+	case *ssa.Extract:
+		if call, ok := y.Tuple.(*ssa.Call); ok {
+			if rs := resultsOf(call, y.Index); len(rs) > 0 {
+				return rs
+			}
+		}
+	}
+	return nil
 }
 
 // ---------------------------------------------------------------------- whole --
@@ -707,21 +864,24 @@ func c38Idem(c *Ctx, p *Prog, del *ssa.Function) {
 // c38HandleClass classifies a handle argument: "primary" (GetHandleID /
 // CreateVMHandleID result) or "workload" (built from the endpoint identifiers).
 func c38HandleClass(v ssa.Value) string {
-	res, others := c20Results(v)
-	if len(others) == 0 && len(res) > 0 {
-		all := true
-		for _, r := range res {
-			f := calleeOf(r.Call.Common())
-			if f == nil || (f.Name() != "GetHandleID" && f.Name() != "CreateVMHandleID") {
-				all = false
-			}
+	orig := origins(v, c38Through)
+	all := len(orig) > 0
+	for _, o := range orig {
+		call, ok := o.V.(*ssa.Call)
+		if !ok {
+			all = false
+			break
 		}
-		if all {
-			return "primary"
+		f := calleeOf(call.Common())
+		if f == nil || (f.Name() != "GetHandleID" && f.Name() != "CreateVMHandleID") {
+			all = false
 		}
 	}
+	if all {
+		return "primary"
+	}
 	// workload ID: phi of epIDs.ContainerID and Sprintf(ns, pod)
-	for _, o := range origins(v, nil) {
+	for _, o := range orig {
 		if _, f, _, ok := fieldOf(o.V); ok && f == "ContainerID" {
 			return "workload"
 		}
@@ -729,18 +889,39 @@ func c38HandleClass(v ssa.Value) string {
 	return "other"
 }
 
+// c38Derives names the handle derivation a call stands for: a call of
+// GetHandleID / CreateVMHandleID, or of an in-scope helper whose every result
+// originates in calls of one of them.
+func c38Derives(call *ssa.Call) string {
+	name := ""
+	for _, o := range origins(call, c38Through) {
+		oc, ok := o.V.(*ssa.Call)
+		if !ok {
+			return ""
+		}
+		fo := calleeOf(oc.Common())
+		if fo == nil || (fo.Name() != "CreateVMHandleID" && fo.Name() != "GetHandleID") || (name != "" && name != fo.Name()) {
+			return ""
+		}
+		name = fo.Name()
+	}
+	return name
+}
+
 func c38Both(c *Ctx, p *Prog, del *ssa.Function) {
+	c38UseScope(c38ScopeOf(del))
+	defer c38UseScope(nil)
 	// The condition that selects the VM handle over the container handle.
 	var vmCall, ctrCall *ssa.Call
 	allInstrs(del, false, func(f *ssa.Function, in ssa.Instruction) {
 		if call, ok := in.(*ssa.Call); ok {
-			if fo := calleeOf(call.Common()); fo != nil {
-				switch fo.Name() {
-				case "CreateVMHandleID":
-					vmCall = call
-				case "GetHandleID":
-					ctrCall = call
-				}
+			// the derivation call itself, or an in-package helper all of whose
+			// results are that derivation
+			switch c38Derives(call) {
+			case "CreateVMHandleID":
+				vmCall = call
+			case "GetHandleID":
+				ctrCall = call
 			}
 		}
 	})
@@ -811,72 +992,186 @@ func c38Both(c *Ctx, p *Prog, del *ssa.Function) {
 // --------------------------------------------------------------------- handle --
 
 func c38Handle(c *Ctx, p *Prog, add, del *ssa.Function) {
-	find := func(fn *ssa.Function, name string) *ssa.Call {
+	defer c38UseScope(nil)
+	scAdd, scDel := c38ScopeOf(add), c38ScopeOf(del)
+	// the derivation call is searched in the entry point and in the in-package
+	// helpers it reaches; its arguments are described in terms of the entry
+	// point's own values (helper parameters are mapped to the call-site arguments)
+	find := func(sc *c38Scope, name string) *ssa.Call {
 		var out *ssa.Call
 		n := 0
-		allInstrs(fn, false, func(f *ssa.Function, in ssa.Instruction) {
-			if call, ok := in.(*ssa.Call); ok {
-				if fo := calleeOf(call.Common()); fo != nil && fo.Name() == name {
-					out = call
-					n++
-				}
+		for _, fn := range sc.funcs {
+			if fn.Parent() != nil {
+				continue // closures: as before, the derivation is expected in a function body proper
 			}
-		})
+			allInstrs(fn, false, func(f *ssa.Function, in ssa.Instruction) {
+				if call, ok := in.(*ssa.Call); ok {
+					if fo := calleeOf(call.Common()); fo != nil && fo.Name() == name {
+						out = call
+						n++
+					}
+				}
+			})
+		}
 		if n != 1 {
-			c.Lost("%s: %d calls of %s", fnName(fn), n, name)
+			c.Lost("%s (and in-package callees): %d calls of %s", fnName(sc.root), n, name)
+		}
+		if h := out.Parent(); h != sc.root && len(sc.sites[h]) != 1 {
+			c.Lost("%s: %s is called in helper %s, which has %d call sites", fnName(sc.root), name, fnName(h), len(sc.sites[h]))
 		}
 		return out
 	}
+	var lost []string
 	for _, name := range []string{"GetHandleID", "CreateVMHandleID"} {
-		a, d := find(add, name), find(del, name)
-		sa, sd := c38Sig(a, 7), c38Sig(d, 7)
-		c.Check(sa == sd, "C38.handle/"+name, p.Pos(d.Pos()), "ADD and DEL derive the handle identically: "+sa,
-			"cmdDel computes the handle as "+sd+" but cmdAdd as "+sa+": DEL releases a handle that ADD never allocated under")
-	}
-	// what cmdAdd passes to the IPAM library
-	for _, tn := range []string{"AutoAssignArgs", "AssignIPArgs"} {
-		var lit *ssa.Alloc
-		allInstrs(add, false, func(f *ssa.Function, in ssa.Instruction) {
-			if al, ok := in.(*ssa.Alloc); ok && namedTypeName(al.Type()) == tn && len(literalFieldStores(al)["HandleID"]) > 0 {
-				lit = al
-			}
+		name := name
+		c38Isolated2(&lost, func() {
+			a, d := find(scAdd, name), find(scDel, name)
+			c38UseScope(scAdd)
+			sa := c38Sig(a, 7)
+			c38UseScope(scDel)
+			sd := c38Sig(d, 7)
+			c.Check(sa == sd, "C38.handle/"+name, p.Pos(d.Pos()), "ADD and DEL derive the handle identically: "+sa,
+				"cmdDel computes the handle as "+sd+" but cmdAdd as "+sa+": DEL releases a handle that ADD never allocated under")
 		})
-		if lit == nil {
-			c.Lost("cmdAdd: %s literal with HandleID", tn)
-		}
-		ok := true
-		for _, v := range literalFieldStores(lit)["HandleID"] {
-			al, isAl := v.(*ssa.Alloc)
-			if !isAl {
-				ok = false
-				continue
+	}
+	// what cmdAdd passes to the IPAM library: the literal may sit in cmdAdd or in
+	// an in-package helper it calls (closures included)
+	c38UseScope(scAdd)
+	for _, tn := range []string{"AutoAssignArgs", "AssignIPArgs"} {
+		tn := tn
+		c38Isolated2(&lost, func() {
+			var lits []*ssa.Alloc
+			var bare *ssa.Alloc // a literal of the type that sets fields but no HandleID
+			for _, fn := range scAdd.funcs {
+				allInstrs(fn, false, func(f *ssa.Function, in ssa.Instruction) {
+					if al, ok := in.(*ssa.Alloc); ok && namedTypeName(al.Type()) == tn {
+						if len(literalFieldStores(al)["HandleID"]) > 0 {
+							lits = append(lits, al)
+						} else if len(literalFieldStores(al)) > 0 && bare == nil {
+							bare = al
+						}
+					}
+				})
 			}
-			nSt := 0
-			for _, r := range *al.Referrers() {
-				if st, isSt := r.(*ssa.Store); isSt && st.Addr == ssa.Value(al) {
-					nSt++
-					if c38HandleClass(st.Val) != "primary" {
+			if len(lits) == 0 && bare != nil {
+				c.Violate("C38.handle/cmdAdd/"+tn, p.Pos(bare.Pos()), "%s is built without HandleID: the address is allocated under no handle and DEL cannot find it", tn)
+				return
+			}
+			if len(lits) == 0 {
+				c.Lost("cmdAdd (and in-package callees): %s literal", tn)
+			}
+			for _, lit := range lits {
+				hs := literalFieldStores(lit)["HandleID"]
+				ok := len(hs) > 0 // a request without HandleID allocates under no handle at all
+				for _, v := range hs {
+					if !c38PtrToPrimary(v) {
 						ok = false
 					}
 				}
+				c.Check(ok, "C38.handle/cmdAdd/"+tn, p.Pos(lit.Pos()), tn+".HandleID points at the handle computed by GetHandleID/CreateVMHandleID", tn+".HandleID is not the handle computed by GetHandleID/CreateVMHandleID: DEL cannot find the allocation")
 			}
-			if nSt == 0 {
-				ok = false
-			}
-		}
-		c.Check(ok, "C38.handle/cmdAdd/"+tn, p.Pos(lit.Pos()), tn+".HandleID points at the handle computed by GetHandleID/CreateVMHandleID", tn+".HandleID is not the handle computed by GetHandleID/CreateVMHandleID: DEL cannot find the allocation")
+		})
 	}
+	if len(lost) > 0 {
+		panic(anchorLost{strings.Join(lost, "; ")})
+	}
+}
+
+// c38Isolated2 runs one instance of a family; a lost anchor is collected and
+// raised (combined) by the caller after the other instances were decided.
+func c38Isolated2(lost *[]string, f func()) {
+	defer func() {
+		if r := recover(); r != nil {
+			if al, ok := r.(anchorLost); ok {
+				*lost = append(*lost, al.msg)
+				return
+			}
+			panic(r)
+		}
+	}()
+	f()
+}
+
+// c38PtrToPrimary: v is a *string that points at the primary handle — the
+// address of a local (or of a spilled helper parameter) every store to which
+// is the primary handle, or a pointer parameter of an in-scope helper every
+// call site of which passes such an address.
+func c38PtrToPrimary(v ssa.Value) bool {
+	seen := map[ssa.Value]bool{}
+	var rec func(v ssa.Value) bool
+	rec = func(v ssa.Value) bool {
+		if seen[v] {
+			return true
+		}
+		seen[v] = true
+		switch x := v.(type) {
+		case *ssa.Alloc:
+			nSt := 0
+			for _, r := range *x.Referrers() {
+				if st, isSt := r.(*ssa.Store); isSt && st.Addr == ssa.Value(x) {
+					nSt++
+					if c38HandleClass(st.Val) != "primary" {
+						return false
+					}
+				}
+			}
+			return nSt > 0
+		case *ssa.Parameter:
+			as := c38Bind[x]
+			if len(as) == 0 {
+				return false
+			}
+			for _, a := range as {
+				if !rec(a) {
+					return false
+				}
+			}
+			return true
+		case *ssa.Phi:
+			for _, e := range x.Edges {
+				if !rec(e) {
+					return false
+				}
+			}
+			return len(x.Edges) > 0
+		}
+		return false
+	}
+	return rec(v)
 }
 
 // ------------------------------------------------------------------------ add --
 
-func c38Add(c *Ctx, p *Prog, add *ssa.Function) {
-	aas := c38IPAMCalls(add, "AutoAssign")
+func c38Add(c *Ctx, p *Prog, entry *ssa.Function) {
+	sc := c38ScopeOf(entry)
+	c38UseScope(sc)
+	defer c38UseScope(nil)
+	// The auto-assign block is located by what it does: the function (cmdAdd or
+	// an in-package helper it reaches) that holds the AutoAssign call, directly or
+	// in a closure.  All conditions below are decided inside that function.
+	var aas []*ssa.Call
+	for _, fn := range sc.funcs {
+		if fn.Parent() == nil {
+			aas = append(aas, c38IPAMCalls(fn, "AutoAssign")...)
+		}
+	}
 	if len(aas) != 1 {
-		c.Lost("cmdAdd: AutoAssign calls (%d)", len(aas))
+		c.Lost("cmdAdd (and in-package callees): AutoAssign calls (%d)", len(aas))
 	}
 	inner := aas[0]
-	var outer *ssa.Call // the call in cmdAdd itself whose results are the assignments
+	add := inner.Parent()
+	for add.Parent() != nil {
+		add = add.Parent()
+	}
+	if add != entry {
+		// an extracted helper: its success must be cmdAdd's only way on, i.e. the
+		// helper is called from within the scope and returns an error last
+		if len(sc.sites[add]) == 0 || add.Signature.Results().Len() == 0 ||
+			!types.Identical(add.Signature.Results().At(add.Signature.Results().Len()-1).Type(), c38ErrType) {
+			c.Lost("cmdAdd: helper %s holding the AutoAssign call does not return an error", fnName(add))
+		}
+	}
+	var outer *ssa.Call // the call in the host itself whose results are the assignments
 	if inner.Parent() == add {
 		outer = inner
 	} else {
